@@ -189,7 +189,7 @@
         if old_m.contains_key(gk) { lemma_remove_counts(old_m, gk); }
         else { assert(old_m.remove(gk) =~= old_m); }
     }
-@@ Service::update_instance_healthy_invalid before_return 1
+@@ Service::update_instance_healthy_invalid before_return *
     proof {
         assert(self.instances@ =~= old_m);
     }
@@ -225,7 +225,7 @@
         if old_m.contains_key(gk) { lemma_remove_counts(old_m, gk); }
         else { assert(old_m.remove(gk) =~= old_m); }
     }
-@@ Service::update_perpetual_instance_healthy_valid before_return 1
+@@ Service::update_perpetual_instance_healthy_valid before_return *
     proof {
         assert(self.instances@ =~= old_m);
     }
